@@ -26,6 +26,9 @@ CHECKS = {
     text="Exhaustive enumeration of the adversary: every borrower script of length <=2 over 11 base behaviours + nested loans (whose callback is again a script of length <=1 quick / <=2 thorough; thorough adds all length-3 scripts) x loan amounts {1,999,1000,1e6,balance,balance+1} x fee triples x {native,cw20} executed on the real vault through a scripted borrower contract, and every vault_router payload of <=2 atoms; per transaction: revert => full-state equality, success => balance growth >= all fees, burn destroyed, ledger growth, LOAN_COUNTER==0, no shares minted, exact payback suffices / one unit less never does, router keeps nothing and forwards the remainder, NextLoan/CompleteLoan guarded.",
     note="Adversary alphabet is finite (no reply-on-error swallowing). One known finding (inner-loan fees offset the outer repayment) reported as KNOWN-FINDING.",
     tech="exhaustive fault-sequence enumeration on the implementation (explicit-state, one transaction deep, scripts up to depth 3 with nesting)", ref="DESIGN.md §4 C06"),
+ "C08": dict(
+    text="Explicit-state BFS over the real whale_lair wired to the real fee_distributor/collector: all sequences of <=4 (quick, 2 users) / <=5 (thorough, 3 users) bond/unbond/withdraw calls over 2 bonding denoms, invalid calls (foreign denom, cw20, mismatched/multiple/no funds, zero/uncovered unbond) and time steps {same block, +1ns, +period-1ns, +period, +1 day}; a reference ledger built from the accepted calls' arguments is compared in every state with Bonded/TotalBonded/Unbonding/Withdrawable and the bank balance; every withdraw pays exactly the matured unbondings once, to the owner only.",
+    note="Bounded alphabets/depth; growth rate 0 (weights are C09's concern); distributor at epoch 0.", tech="explicit-state model checking of the implementation (BFS) against a reference model", ref="DESIGN.md §4 C08"),
 }
 NOT_BUILT = "check not built yet in this round (planned, see DESIGN.md)"
 props = [json.loads(l) for l in open('/verif/properties.jsonl')]
